@@ -127,6 +127,7 @@ VERUS_UNITS = {
             (r'\w+Trigger::register$', ['C01', 'C07']),
             (r'DespawnTrigger::register$', ['C18', 'C08']),
             (r'register_(insertion|mutation|removal|any_entity_event|resource_mutation|broadcast)_reactor$', ['C01', 'C07']),
+            (r'(register_removal_reactor|(Removal|EntityRemoval)Trigger::register)$', ['C08']),
             (r'register_entity_reactor$', ['C01', 'C07', 'C18']),
             (r'track_removals$', ['C08']),
             (r'register_reactors$', ['C07', 'C01']),
@@ -161,7 +162,7 @@ VERUS_UNITS = {
     },
     'runner': {
         'template': 'runner.rs.tpl',
-        'owners': [(r'syscommand_runner$', ['C03', 'C05', 'C07', 'C12', 'C13', 'C18']), (r'replay_buffered(_\d+)?$', ['C03', 'C05', 'C12', 'C18']), (r'kept_of$', ['C12'])],
+        'owners': [(r'syscommand_runner$', ['C03', 'C05', 'C07', 'C08', 'C12', 'C13', 'C18']), (r'replay_buffered(_\d+)?$', ['C03', 'C05', 'C12', 'C18']), (r'kept_of$', ['C12'])],
         'negctl': [
             ('(w_out.counter().0 == 0 && w_out.queue().commands@.len() == 0))', '(w_out.counter().0 == 1 && w_out.queue().commands@.len() == 0))', 'syscommand_runner'),
             ('idx != 0) ==> (w_out.queue().commands@ == w0.queue().commands@.push(', 'idx != 0) ==> (w_out.queue().commands@ == w0.queue().commands@.drop_last().push(', 'syscommand_runner'),
@@ -182,7 +183,7 @@ VERUS_UNITS = {
     },
     'despawn_reg': {
         'template': 'despawn_reg.rs.tpl',
-        'owners': [(r'register_despawn_(reactor|scope)$', ['C07', 'C18', 'C01'])],
+        'owners': [(r'register_despawn_(reactor|scope)$', ['C07', 'C18', 'C01', 'C08'])],
         'negctl': [
             # R3 must be a real obligation: if an existing tracker could be replaced the precondition of insert is violated
             ('&& (tr0.dom().contains(entity) ==> tr1 =~= tr0)', '&& (tr0.dom().contains(entity) ==> tr1 =~= tr0.remove(entity))', 'register_despawn_scope'),
@@ -192,7 +193,7 @@ VERUS_UNITS = {
     },
     'despawn_dispatch': {
         'template': 'despawn_dispatch.rs.tpl',
-        'owners': [(r'ReactCache::schedule_despawn_reactions$', ['C01', 'C07']), (r'ReactorHandle::sys_command$', ['C01'])],
+        'owners': [(r'ReactCache::schedule_despawn_reactions$', ['C01', 'C07', 'C08']), (r'ReactorHandle::sys_command$', ['C01'])],
         'negctl': [
             # the list must be consumed by its first report
             ('else if tab.dom().contains(p[0]) { cmds_for(p[0], tab[p[0]]@) + all_cmds(p.skip(1), tab.remove(p[0])) }', 'else if tab.dom().contains(p[0]) { cmds_for(p[0], tab[p[0]]@) + all_cmds(p.skip(1), tab) }', 'ReactCache::schedule_despawn_reactions'),
@@ -202,7 +203,7 @@ VERUS_UNITS = {
     },
     'poll': {
         'template': 'poll.rs.tpl',
-        'owners': [(r'(schedule_removal_and_despawn_reactors|poll_scope)$', ['C07', 'C01'])],
+        'owners': [(r'(schedule_removal_and_despawn_reactors|poll_scope)$', ['C07', 'C01', 'C08'])],
         'negctl': [
             ('*final(world) == flush_eff(with_cache(p.1, p.0)) }),', '*final(world) == with_cache(p.1, p.0) }),', 'schedule_removal_and_despawn_reactors'),
             ('{ let r = removal_eff(c0, w0); despawn_eff(r.0, r.1) }', '{ let r = despawn_eff(c0, w0); removal_eff(r.0, r.1) }', 'poll_scope'),
@@ -316,6 +317,10 @@ PROPS = {
         text='Handle-balance contracts on the real code: ReactorMode::prepare gives a persistent reactor a plain handle (never ref-counted, hence never collected) and every other mode a signal for exactly the reactor\'s entity (Verus, verbatim); each of the 11 trigger types registers exactly ONE clone of the handle per trigger into the table its reactor_type() names, none for a despawn trigger on a dead entity, and register_entity_reactor stores none when the entity is gone (Verus, verbatim, generic); register_* store exactly the handle they are given (Verus, unbounded); revoke_* drop exactly one entry of the revoked reactor and no neighbour (Verus, any length; Kani restatement L<=4), EntityReactors::remove exactly the (type, id) matches (Kani, L<=4); register_reactors turns the mode into ONE handle and registers the whole bundle with it (Verus); the register_despawn_reactor system (closure body verbatim, lifted by extraction rule 16) stores the handle iff the target is still alive when the command is applied, never replaces an existing DespawnTracker (which would report a despawn that did not happen) and wires a new tracker to this cache\'s despawn channel (Verus); schedule_despawn_reactions moves every handle of a despawned entity\'s list INTO its Despawn command and removes the list (Verus, verbatim, unbounded), DespawnAccessTracker holds the in-flight handle from start to end and end drops it (Verus) - so the reactor outlives its pending despawn reaction and not longer; the signal itself is an exact reference count: the reactor\'s id is sent to the despawner exactly once, at the drop of the last clone (Kani on real std::sync::Arc + the assumed channel, 1..3 clones; lemma L4). One collection (Verus, garbage_collect_entities verbatim modulo extraction rule 15; unit gc): the request channel is EMPTY on return - the collector never stops early - and every entity whose request was pending on entry is gone on return, so a reactor whose last handle has disappeared is despawned by the first collection that follows; requests for entities that are already gone are skipped. Level other: WHEN the runner collects / polls is NOT discharged (whole-tree histories); that despawning the entity drops its system state and captures is Bevy\'s component drop (assumed).',
         note=ENVNOTE + '; Arc/channel: sequential semantics; in unit gc the channel receiver and World::resource are given exclusive (&mut) access in place of crossbeam\'s interior mutability',
         explanation='one clone per effective registration, one drop per revocation, in-flight handle dropped at end, exact ref-count of the signal (Kani, bounded), one collection drains every pending request (Verus, unbounded); collection points in the runner not covered'),
+    'C08': dict(category='other', design_ref='DESIGN.md 9.5',
+        text='Despawn half, function level, all proved by Verus on verbatim text for tables / lists / report queues of ANY size: DespawnTrigger::register queues the registration only for a live entity; the register_despawn_reactor system (closure lifted, rule 16) stores the handle iff the entity is alive when the command is applied, never replaces an existing DespawnTracker (replacing it would report a despawn that did not happen) and wires a new tracker to this cache\'s channel for this entity; ReactCache::register_despawn_reactor appends exactly this handle to the entity\'s list; schedule_despawn_reactions consumes the reports front to back until the channel is empty, queues exactly ONE Despawn command per handle registered for a reported entity, naming that entity and carrying the handle, and REMOVES the list - so a second report of the same entity, or a later poll, fires nothing (at most once per watched entity) and an unreported entity fires nothing; schedule_removal_and_despawn_reactors (closure lifted) polls removals, then despawns, then flushes the queued reaction commands before returning; syscommand_runner polls at its entry, on every abort path and - at EVERY level of the tree - after the run and its garbage collection and before any postponed command is replayed (clause E), so a despawn caused inside a tree is reacted to inside that tree. Removal half: track_removals installs exactly one checker per component type ever watched and (Entity)RemovalTrigger::register / register_removal_reactor store exactly one handle in the table their token names (Verus); the per-entity half of its dispatch is schedule_entity_reaction_impl (Verus, unit dispatch). NOT covered: schedule_removal_reactions itself (iter_mut over the checkers, boxed RemovedComponents readers: outside the verifier\'s subset, Kani over cost), detection (Bevy: RemovedComponents, component drop on despawn), the Last-schedule poll of the plugin, and whole histories (re-insert between polls).',
+        note=ENVNOTE + '; channel receiver modelled with &mut access; Vec stand-in for drain(..); removal dispatch and detection assumed',
+        explanation='despawn registration, dispatch (exactly one command per handle, list consumed), poll order and poll points in the runner proved (Verus, unbounded); removal registration proved, removal dispatch and detection not covered'),
     'C10': dict(category='other', design_ref='DESIGN.md 5/C10 + 9.5',
         text='Kani discharges on the real AutoDespawner / AutoDespawnSignal (real std::sync::Arc, assumed FIFO channel) that for 1..3 clones dropped one by one, with the request channel polled after every drop, the prepared entity is requested for despawn exactly once, at the drop of the LAST clone, never while a clone exists, and with the right entity id (symbolic); AutoDespawner::new creates an UNBOUNDED request channel (no request can be lost or blocked however many are pending), and a repeated setup_auto_despawn keeps the existing despawner, so signals prepared earlier stay connected. Lemma L4 (Verus) generalises the count to k clones over the assumed Arc contract. Verus proves on the verbatim garbage_collect_entities (modulo extraction rule 15: `.ok().map(|e| e.despawn_recursive())` read as `if let Ok(e) = .. { e.despawn_recursive(); }`), for ANY number of pending requests including requests enqueued by the despawns themselves: on return the request channel is empty (G1: the collector never stops early), every entity whose request was pending on entry is not alive (G2), a request for an entity that is already gone is skipped and changes nothing - hence a second collection right after the first does nothing (idempotence) - and no entity is revived (G3); that despawn_recursive takes the descendants along is Bevy\'s contract (assumed). In that unit crossbeam\'s interior mutability (`&self` receiver) is modelled as exclusive access to the same FIFO state. Threads are not verified at all (Kani has no thread support): every concurrent history of drops is ASSUMED equivalent to a sequential one (Arc\'s atomic count, linearizable channel).',
         note=ENVNOTE + '; threads not verified; termination of the collection loop not verified; channel receiver modelled with &mut access (unit gc)',
@@ -346,7 +351,6 @@ PROPS = {
         explanation='dead-target paths of revoke walk, payload cleanup and abort proved by Verus; no-panic/no-effect harnesses by Kani; runner not covered'),
 }
 PENDING = {
-    'C08': 'the obligations within reach (track_removals, ReactCache::register_despawn_reactor, DespawnTrigger / EntityRemovalTrigger::register) do not decide the statement: detection itself is Bevy (RemovedComponents, component drop on despawn), schedule_removal_reactions and the register_despawn_reactor system use closures taking &mut World (outside Verus\' subset), and Kani harnesses for schedule_despawn_reactions / register_despawn_reactor exceed the cost rule (ReactCache inside a World: > 600-900 s); DESIGN.md 9.5',
 }
 for k, v in NA.items():
     assert k not in PROPS
